@@ -44,7 +44,7 @@ def write_table(path, storage, table):
     elif storage == "ods":
         odslib.write_ods(path, odslib.content_xml([odslib.plain_sheet(table)]))
     elif storage == "ods-runs":
-        odslib.write_ods(path, odslib.content_xml([odslib.compact_sheet(table)]))
+        odslib.write_ods(path, odslib.content_xml([odslib.compact_sheet(table, notes=True)]))
     else:
         import xlsxwriter
         workbook = xlsxwriter.Workbook(path)
